@@ -26,6 +26,8 @@ BIG = {
 }
 LEMMA = {"quick": dict(SMALL=5, BIG=[(12, 12), (9, 14)]), "thorough": dict(SMALL=8, BIG=[(20, 20), (33, 30), (14, 25)])}
 FAMS = ("lu", "chol", "qr", "larft")
+FORCED = {"quick": [(1, 0), (2, 0), (3, 0), (4, 0), (2, 2), (3, 2)],
+          "thorough": [(nb, nx) for nb in (1, 2, 3, 4, 5, 7) for nx in (0, 2)]}
 
 
 def enc(shapes):
@@ -57,15 +59,24 @@ def run(ctx):
                         subst=dict(FAM=fam, SMALL=SMALL[ctx.tier], BIG=enc(BIG[fam][ctx.tier]), NRHS=3, SEED=ctx.seed))
         for bn, _ in builds:
             ctx.replay(bins[bn], "lapack", cases, args, name="R2 replay %s [%s]" % (fam, bn))
+        # the same instances with the block size / crossover forced through the verifhook.Ilaenv override:
+        # the blocked code runs on every small shape, around its own block edges
+        if fam != "larft":
+            for nb, nx in FORCED[ctx.tier]:
+                if fam != "qr" and nx != 0:
+                    continue        # only the QR/LQ family has a crossover parameter
+                for bn, _ in (builds if thorough else builds[:1]):
+                    ctx.replay(bins[bn], "lapack", cases, args + ["nb=%d" % nb, "nx=%d" % nx],
+                               name="R2 replay %s nb=%d nx=%d [%s]" % (fam, nb, nx, bn))
 
     ctx.assumptions += [
         "TLC/SANY and the CommunityModules Json module are trusted",
         "the harness's operand builders (scaled integer -> float64, row-major layout, transposition, canaries), "
         "the sign bookkeeping S read off the computed triangular factor (the documented freedom of QR/LQ) and the "
         "math/big.Rat comparison are trusted",
-        "block sizes are those of the default Ilaenv (no override hook yet): blocked paths run only on sizes above "
-        "32/64/128 and, for Dgeqrf/Dgelqf/Dorgqr/Dorglq/Dormqr/Dormlq, with the reduced block sizes 2 and 3 selected "
-        "through lwork",
+        "block sizes: the default Ilaenv (blocked paths above 32/64/128), reduced block sizes 2 and 3 selected through "
+        "lwork, and nb in 1..4 (thorough ..7), nx in {0,2} forced through the verif-tagged verifhook.Ilaenv override; "
+        "the override changes which path runs, never what is expected",
     ]
     return ctx.finish(
         rule="one case = one call of a gonum LAPACK routine (one routine x lda/ldb/ldc/lwork variant, or one "
